@@ -159,8 +159,19 @@ fn expr(db: &Db, rng: &mut Rng, depth: u32) -> String {
             1 => format!("{} {} {} {} {}", rng.pick(&["water", "gold", "helium", "neon", "H2O", "air"]), rng.pick(&["+", "-", "*", "/"]), number(rng), rng.pick(&["kg", "mol", "m", "m^3", ""]), rng.pick(&["water", "gold", "helium", "neon", "NaCl"])),
             _ => format!("{} + {} {}", date(rng), number(rng), rng.pick(&["s", "ns", "years", "days", "m", "centuries", "ms"])),
         },
-        _ => format!("{} * -{}", expr(db, rng, d), expr(db, rng, d)),
+        _ => if rng.chance(1, 2) { format!("{} * -{}", expr(db, rng, d), expr(db, rng, d)) } else {
+            // a boundary of a narrowing cast as exponent / shift count / root degree, on a base whose power stays small
+            let b = boundary(rng);
+            let base = *rng.pick(&["1", "0", "(-1)", "1 m", "0 m", "1.0", "(1|1)"]);
+            match rng.below(5) { 0 => format!("{}^{}", base, b), 1 => format!("{}^-{}", base, b), 2 => format!("{}^(1|{})", base, b), 3 => format!("0 << {}", b), _ => format!("0 >> -{}", b) }
+        },
     }
+}
+
+fn boundary(rng: &mut Rng) -> String {
+    let p = *rng.pick(&[7u32, 8, 15, 16, 31, 32, 53, 63, 64, 127, 128]);
+    let v: u128 = if p == 128 { u128::MAX } else { 1u128 << p };
+    match rng.below(4) { 0 => format!("{}", v.saturating_sub(1)), 1 => format!("{}", v), 2 => format!("{}", v.saturating_add(1)), _ => format!("(2^{})", p) }
 }
 
 fn target(db: &Db, rng: &mut Rng) -> String {
@@ -169,7 +180,7 @@ fn target(db: &Db, rng: &mut Rng) -> String {
         4 => unit(db, rng),
         5 => format!("{};{};{}", unit(db, rng), unit(db, rng), unit(db, rng)),
         6 => "hour;minute;second".into(),
-        7 => format!("digits {}", rng.pick(&["0", "1", "10", "100", "1000", "-1", "2147483647", "2147483648", "4294967296", "99999999999999999999", "x"])),
+        7 => if rng.chance(1, 2) { format!("digits {}", rng.pick(&["0", "1", "10", "100", "1000", "-1", "2147483647", "2147483648", "4294967296", "99999999999999999999", "x"])) } else { format!("{} {}", rng.pick(&["digits", "base"]), boundary(rng)) },
         8 => format!("digits {} {}", rng.below(50), unit(db, rng)),
         9 => format!("base {}", rng.pick(&["2", "8", "10", "16", "36", "37", "1", "0", "-2", "256", "4294967298", "x"])),
         10 => format!("base {} {}", 2 + rng.below(35), unit(db, rng)),
